@@ -31,6 +31,14 @@ def takes_many(a: int, b: int, c: int, d: int, e: int = 0) -> int:
     return a + b + c + d + e
 
 
+def takes_posonly(a: int, b: int, c: int, /, d: int = 0) -> int:
+    return a + b + c + d
+
+
+def passthrough(fn):
+    return fn
+
+
 class Ctx:
     def __enter__(self) -> "Ctx":
         return self
@@ -99,6 +107,14 @@ ATOMS = {
     "comp_twice": dict(codes=["unused_variable"], lines=["print([None for cv_{n} in range(2)], [None for cv_{n} in range(3)])"], simple=True, fix=True),
     "chained_assign": dict(codes=[], lines=["ca_{n} = cb_{n} = takes_int({n})"], simple=True),
     "pair_codes": dict(codes=[], render="pair", simple=False),
+    "walrus_unused": dict(codes=["unused_variable"], lines=["wx_{n} = (wy_{n} := p) + {n}", "print(wx_{n})"], simple=False, fix=True),
+    "walrus_in_call": dict(codes=["unused_variable"], lines=["print(takes_int(wz_{n} := {n}))"], simple=True),
+    "decorated_inner_fstring": dict(codes=["use_fstrings"], enable=["use_fstrings"], lines=["@passthrough", "@passthrough", "def deco_inner_{n}(a: str = \"%s!\" % q) -> str:", "    return a", "print(deco_inner_{n})"], simple=False, fix=True),
+    "decorated_inner_unused": dict(codes=["unused_variable"], lines=["@passthrough", "def deco_inner_{n}() -> int:", "    unused_{n} = {n}", "    return {n}", "print(deco_inner_{n})"], simple=False, fix=True),
+    "many_pos_posonly": dict(codes=[], enable=["too_many_positional_args"], lines=["print(takes_posonly({n}, p, 3))", "print(takes_posonly({n}, 2, 3, 4))"], simple=False, needs_max_pos=True),
+    "unused_ignore_with_reason": dict(codes=["unused_ignore"], enable=["unused_ignore"], lines=["# static analysis: ignore[undefined_name] because of legacy code {n}", "print({n})"], simple=False, fix=True),
+    "unused_ignore_trailing_reason": dict(codes=["unused_ignore"], enable=["unused_ignore"], lines=["print({n})  # static analysis: ignore[undefined_name] legacy {n}"], simple=True, fix=True),
+    "nested_def_in_loop": dict(codes=["undefined_name"], lines=["for it_{n} in range(p):", "    def cb_{n}(z: int = it_{n}) -> int:", "        return z + undefined_{n}", "    print(cb_{n})"], simple=False),
     # fixable expressions in the HEADER of a compound statement, or nested in another scope
     "fstring_if_header": dict(codes=["use_fstrings"], enable=["use_fstrings"], lines=["if \"<%s>\" % q == \"<w>\":", "    # body comment {n}", "    print({n})", "", "    print(p)"], simple=False, fix=True),
     "fstring_for_header": dict(codes=["use_fstrings"], enable=["use_fstrings"], lines=["for ch_{n} in \"%s-%d\" % (q, {n}):", "    print(ch_{n})  # loop note"], simple=False, fix=True),
@@ -132,6 +148,7 @@ ATOMS = {
 
 # statements placed at MODULE level (they execute at import, so only shapes that run without raising)
 MODULE_ATOMS = {
+    "mod_missing_await": (["aio_fetch({n})"], []),
     "mod_bad_arg": (["takes_int(\"s{n}\")"], []),
     "mod_bad_assign": (["MODV_{n}: int = \"s{n}\""], []),
     "mod_bad_default": (["def md_{n}(x: int = \"s{n}\") -> None:", "    pass"], []),
@@ -159,6 +176,8 @@ ASYNQ_ATOMS = {
     "impure_call_ml": ["print(fetch(", "    p + {n},", "))"],
     "dup_ml2": ["yk_{n} = yield fetch.asynq({n})", "yl_{n} = yield fetch.asynq(", "    p,", ")", "print(yk_{n}, yl_{n})"],
     "impure_call": ["print(fetch(p + {n}))"],
+    "impure_call_in_listcomp": ["print([fetch(x_{n}) for x_{n} in range(p)])"],
+    "impure_call_in_lambda": ["print((lambda: fetch({n}))())"],
     "impure_call_nested": ["print(takes_two(fetch({n}), fetch(p)))"],
     "dup_nested": ["if p:", "    yg_{n} = yield fetch.asynq({n})", "    yh_{n} = yield fetch.asynq(p)", "    print(yg_{n}, yh_{n})"],
     "dup_ml": ["yi_{n} = yield fetch.asynq(", "    {n}", ")", "yj_{n} = yield fetch.asynq(p)", "print(yi_{n}, yj_{n})"],
@@ -213,6 +232,11 @@ class Gen:
     def pick_atom(self, simple_only=False, compound_ok=True):
         r = self.r
         names = sorted(self.enabled_atoms)
+        forced = getattr(self, "forced_atom", None)
+        if forced is not None and not simple_only and (compound_ok or not ATOMS[forced].get("no_compound")):
+            # place the round-robin atom first
+            self.forced_atom = None
+            return forced
         for _ in range(30):
             name = r.choice(names)
             spec = ATOMS[name]
@@ -306,8 +330,15 @@ class Gen:
         if skeleton == "async_def":
             n = self.next_n()
             self.meta["atoms"].append("asynq:missing_await")
-            if r.chance(0.5):
+            v = r.below(4)
+            if v == 0:
                 return ["async def co%d(p: int = 3) -> None:" % k, "    aio_fetch(p + %d)" % n, "    print(p)"]
+            if v == 1:
+                # a plain def nested in an async def (and the reverse): the fix must pick the keyword
+                # of the innermost function
+                return ["async def co%d(p: int = 3) -> None:" % k, "    def on_message_%d(msg):" % n, "        aio_fetch(msg + %d)" % n, "    on_message_%d(p)" % n, "    await aio_fetch(p)"]
+            if v == 2:
+                return ["def outer%d(p: int = 3) -> object:" % k, "    async def inner_%d(msg: int) -> None:" % n, "        aio_fetch(msg + %d)" % n, "    return inner_%d" % n]
             return ["async def co%d(p: int = 3) -> None:" % k, "    if p:", "        aio_fetch(", "            p + %d" % n, "        )", "    print(p)"]
         body = []
         for _ in range(r.randint(1, 2) if skeleton != "method" else 1):
@@ -409,6 +440,12 @@ class Gen:
         pool = [a for a in sorted(ATOMS) if a not in KNOWN_DEFECT_ATOMS or with_known]
         k = r.randint(2, min(7, len(pool)))
         self.enabled_atoms = set(r.sample(pool, k))
+        # round-robin guarantee: tree number i always carries atom number i mod N, so that even the
+        # quick tier places every atom in a few trees
+        ordered = [a for a in sorted(ATOMS) if a in pool]
+        if ordered and self.opts.get("index") is not None:
+            self.enabled_atoms.add(ordered[self.opts["index"] % len(ordered)])
+            self.forced_atom = ordered[self.opts["index"] % len(ordered)]
         skeletons = [k for k in SKELETONS if with_known or k not in ("semicolon", "one_line_if")]
         self.enabled_skeletons = r.sample(skeletons, r.randint(2, 5))
         if not with_known:
@@ -441,5 +478,7 @@ def _tabify(line):
 
 
 def generate_tree(seed, index, opts=None):
+    opts = dict(opts or {})
+    opts.setdefault("index", index)
     g = Gen(seed, index, opts)
     return g.tree()
